@@ -118,6 +118,23 @@ class RLE:
         self.fill, self.length = fill, length
 
 
+class RLECat:
+    """concatenation of run-length segments [(fill, length), ...]"""
+
+    def __init__(self, segs):
+        self.segs = list(segs)
+
+
+def _segs(v):
+    if isinstance(v, RLE):
+        return [(v.fill, v.length)]
+    if isinstance(v, RLECat):
+        return list(v.segs)
+    if isinstance(v, PList):
+        return [(x, Rat.const(1)) for x in v.items]
+    return None
+
+
 class PDict:
     """dict literal/object; `d` maps a hashable key digest to the value, `k` to the original key"""
 
@@ -211,6 +228,8 @@ def canon(v):
         return repr(v)
     if isinstance(v, RLE):
         return f"[{canon(v.fill)}]*({canon(v.length)})"
+    if isinstance(v, RLECat):
+        return " + ".join(f"[{canon(f)}]*({canon(n)})" for f, n in v.segs)
     if isinstance(v, NewVar):
         return f"LpVariable({canon(v.name)})"
     if isinstance(v, Opaque):
@@ -815,6 +834,11 @@ class Interp:
                 return self.to_str(a, node) + self.to_str(b, node)
             if isinstance(a, PList) and isinstance(b, PList):
                 return PList(a.items + b.items)
+            if isinstance(a, (RLE, RLECat)) or isinstance(b, (RLE, RLECat)):
+                sa, sb = _segs(a), _segs(b)
+                if sa is None or sb is None:
+                    raise Unsupported("list concatenation with a non-list", node)
+                return RLECat(sa + sb)
             if isinstance(a, tuple) and isinstance(b, tuple):
                 return a + b
             if isinstance(a, Cmp) or isinstance(b, Cmp):
